@@ -27,6 +27,20 @@ class Unsupported(Exception):
     pass
 
 
+def map_slots(lst) -> tuple:
+    """(mapkey, mapvalue) of an `ElementList`: the two private slots that make it act as a mapping. The names of the
+    pinned commit are tried first; after a harmless rename they are found among the private slots by shape (None or a
+    dotted attribute path) and name. `common.BindingBroken` (a BaseException: not swallowed by the `except Exception`
+    blocks that record what the IMPLEMENTATION raised) when they cannot be identified."""
+    import common
+
+    def pred(v):
+        return v is None or isinstance(v, str)
+
+    return (common.get_private(lst, "_ElementList__mapkey", pred, ("key",)),
+            common.get_private(lst, "_ElementList__mapvalue", pred, ("val",)))
+
+
 class World:
     """Recorder of `getattr` results; objects are numbered by element identity (classes by their own)."""
 
@@ -410,7 +424,7 @@ def run_ops(ctx, out, world: World, lst, origin: dict, label: str, state: str, r
             want = [x for x, o in zip(L, objs) if operator.attrgetter(path)(o)]
             if [id(x) for x in r._elements] != [id(x) for x in want]:
                 bad("filter-pred|differs", f"filter({path!r}) is not the comprehension over truthy values", attr=path)
-            if r._ElementList__mapkey != lst._ElementList__mapkey or r._ElementList__mapvalue != lst._ElementList__mapvalue:
+            if map_slots(r) != map_slots(lst):
                 bad("filter-pred|mapkey-lost", f"filter({path!r}) no longer acts as the same mapping", attr=path)
         except Exception as e:  # noqa: BLE001
             iv = canon_exc(e)
@@ -552,7 +566,7 @@ def run_ops(ctx, out, world: World, lst, origin: dict, label: str, state: str, r
             want = [L[k] for k in range(*s.indices(n))]
             if [id(x) for x in r._elements] != [id(x) for x in want]:
                 bad("slice|differs", f"lst[{s}] differs from the progression of slice.indices")
-            if r._ElementList__mapkey != lst._ElementList__mapkey or r._ElementList__mapvalue != lst._ElementList__mapvalue:
+            if map_slots(r) != map_slots(lst):
                 bad("slice|mapkey-lost", f"lst[{s}] no longer acts as the same mapping")
         except ValueError:
             iv = {"err": "ValueError"}
@@ -564,7 +578,7 @@ def run_ops(ctx, out, world: World, lst, origin: dict, label: str, state: str, r
         impl.append(iv)
         out.hit("listop:slice:" + ("neg" if (s.step or 1) < 0 else "zero" if s.step == 0 else "pos"))
     # --- the list as a mapping
-    mk, mv = lst._ElementList__mapkey, lst._ElementList__mapvalue
+    mk, mv = map_slots(lst)
     mapping_ok = True
     if mk:
         st, keyvals = key_values(world, idxs, mk.split("."))
@@ -697,10 +711,12 @@ def check_lists(ctx, out, model, label: str, state: str, lreqs: list, only: dict
         org = dict(origin)
         org["_other"] = prev if prev is not None and prev._model is lst._model else None
         res = run_ops(ctx, out, world, lst, org, label, state, rng)
-        prev = lst
         if res is None:
+            # a view list (reqif RelationsList: stores relation elements, hands out the objects at their other end) is
+            # not used as the right-hand operand of the next list's `+`/`-`/`in` either: its items are not its elements
             out.hit("listop:view-list-skipped")
             continue
+        prev = lst
         res["req"]["objs"] = world.objs
         res["keep"] = world.keep
         res["rep"]["origin"] = {k: v for k, v in origin.items() if not k.startswith("_")}
